@@ -5,6 +5,7 @@ go 1.25.0
 require (
 	github.com/cespare/xxhash/v2 v2.3.0
 	github.com/gobwas/ws v1.4.0
+	github.com/jensneuse/abstractlogger v0.0.4
 	github.com/wundergraph/graphql-go-tools/execution v0.0.0
 	github.com/wundergraph/graphql-go-tools/v2 v2.4.4
 )
@@ -19,7 +20,6 @@ require (
 	github.com/gobwas/pool v0.2.1 // indirect
 	github.com/google/uuid v1.6.0 // indirect
 	github.com/hashicorp/golang-lru v0.5.4 // indirect
-	github.com/jensneuse/abstractlogger v0.0.4 // indirect
 	github.com/jensneuse/byte-template v0.0.0-20231025215717-69252eb3ed56 // indirect
 	github.com/kingledion/go-tools v0.6.0 // indirect
 	github.com/phf/go-queue v0.0.0-20170504031614-9abe38d0371d // indirect
